@@ -60,6 +60,22 @@ CLAIMS['C12'] = ('other',
     'fills a dict whose values do not depend on it); MibCompiler.compile keeps no state on the instance (it assigns '
     'locals only - not stated as a frame obligation); scripts/mibcopy.py. Set iteration is taken to be the only '
     'hash-dependent behaviour of CPython (dict order is insertion order). Trusted: PLY lexer object construction.', '5 C12')
+CLAIMS['C16'] = ('other',
+    'Three layers. (1) Contracts on the real functions, discharged for all inputs: both genImports for EVERY conversion '
+    'table of the shipped shape (module names only added, constant base modules added, result sorted and duplicate-free, '
+    'no exception other than the undecided list.remove), symTrans, SymtableCodeGen.genSimpleSyntax (SMIv2 class name, '
+    'module looked up under the translated name), both genTrapType (<enterprise>.0.<n>, class notificationtype, variables '
+    'in order), the MAX-ACCESS / ACCESS and TRAP-TYPE grammar actions. (2) Table lemmas decided by exhaustive enumeration '
+    'of the data of the real classes: the shipped table has the shape the contracts quantify over, every target is '
+    'exported by the SMIv2 module it names and every RFC 1213 system/snmp-group object of the installed SNMPv2-MIB is '
+    'mapped to it (ground truth: the SMI modules shipped with the installed pysnmp), Counter/Gauge/NetworkAddress/INTEGER '
+    'keywords and type tables. (3) BOUNDED, not proved: that the rewriting removes each converted symbol and adds each '
+    'target - the real functions are run on two import clauses per table entry (496 runs, exhaustive over the 248 entries, '
+    'not over clauses).',
+    'Trusted: the SMIv2 modules shipped with the installed pysnmp as ground truth (IF-MIB, IP-MIB, TCP-MIB, UDP-MIB are '
+    'not shipped: targets in them are not checked); PLY; the pysnmp template. Not decided: the pairing lemma "trees that '
+    'differ only by the transliteration give equal records" is not stated as one obligation - it is the conjunction of the '
+    'per-function contracts. D35 (RFC1158-MIB table) found by a table lemma and fixed.', '5 C16')
 CLAIMS['C13'] = ('proof',
     'FileWriter.putData, PyFileWriter.putData and CallbackWriter.putData are executed symbolically against an OS model '
     'in which every system call may fail (and os.write may fall short) adversarially; atomicity, temp-file cleanup, '
